@@ -204,6 +204,11 @@ class Tx:
             return k1, f'(if {tc} then {t1} else {t2})'
         if isinstance(node, ast.Call):
             return self.call(node, env)
+        if isinstance(node, ast.Attribute) and node.attr in ('lower', 'upper'):
+            k, t = self.expr(node.value, env)
+            need(k == 'obounds', f'{self.rel}:{node.lineno}: .{node.attr} of something that is not CardinalityBounds')
+            sel = 'fst' if node.attr == 'lower' else 'snd'
+            return 'ocb', f'(obind {t} (fun b_ => Some ({sel} b_)))'
         self.fail(node)
 
     def call(self, node, env):
@@ -520,7 +525,7 @@ def translate(repo):
             'return (lower, upper)']
     got = [ast.unparse(s) for s in _strip_doc(f.body)]
     need(got == want and _argnames(f) == ['args'], f'{rel}: _card_unzip idiom changed: {got}')
-    out.append('(* zip(*(bounds...)) : the lists of lower and of upper bounds, in argument order *)\n'
+    out.append('(* zip of the argument bounds: the lists of lower and of upper bounds, in argument order *)\n'
                'Definition card_unzip (args : list card) : option (list cb * list cb) :=\n'
                '  obind (omap_list card_to_bounds args) (fun bs => Some (map fst bs, map snd bs)).')
 
